@@ -3220,7 +3220,7 @@ fn gen_recorded(f: &RecFrame, max_steps: usize, out: &mut Out, lines: &mut Vec<S
 }
 
 /// frames of real transactions (the state-test fixtures shipped with the code)
-fn gen_real(r: &mut Rng, txs: usize, out: &mut Out, lines: &mut Vec<String>) {
+fn gen_real(r: &mut Rng, txs: usize, sample: bool, out: &mut Out, lines: &mut Vec<String>) {
     let root = std::path::Path::new("/repo/tests/pectra_devnet5/state_tests");
     let mut files = vec![];
     list_json(root, &mut files);
@@ -3260,15 +3260,19 @@ fn gen_real(r: &mut Rng, txs: usize, out: &mut Out, lines: &mut Vec<String>) {
             };
             out.count("real:tx");
             done += 1;
-            // the outermost frame is recorded last; at most 6 frames of one transaction
+            // the outermost frame is recorded last; at most 6 (quick tier: 3) frames of one transaction, and in the
+            // quick tier only frames with small code and calldata, 150 instructions each
             let n = frames.len();
-            let mut pick: Vec<usize> = (0..n).collect();
-            while pick.len() > 6 {
+            let mut pick: Vec<usize> = (0..n)
+                .filter(|i| !sample || (frames[*i].params.code.len() <= 4096 && frames[*i].params.input.len() <= 4096))
+                .collect();
+            let cap = if sample { 3 } else { 6 };
+            while pick.len() > cap {
                 let i = r.below(pick.len() as u64 - 1) as usize;
                 pick.remove(i);
             }
             for i in pick {
-                gen_recorded(&frames[i], 300, out, lines);
+                gen_recorded(&frames[i], if sample { 150 } else { 300 }, out, lines);
             }
         }
     }
@@ -3281,7 +3285,7 @@ fn gen(seed: u64, n: usize, out: &mut Out) -> Vec<String> {
     let thorough = n >= 4000;
     gen_opcode_spec_matrix(&mut r, out, &mut lines, if thorough { 1 } else { 12 });
     gen_truncated_push(&mut r, out, &mut lines, !thorough);
-    gen_real(&mut r, if thorough { 500 } else { 30 }, out, &mut lines);
+    gen_real(&mut r, if thorough { 500 } else { 10 }, !thorough, out, &mut lines);
     // DIFFICULTY under MERGE with `prevrandao = None`: the `unwrap()` of host_env.rs (excluded by `Env` validation)
     for _ in 0..n {
         if r.chance(1, 5) {
